@@ -170,11 +170,11 @@ variable {K : Type} [Field K] [LinearOrder K] [IsStrictOrderedRing K]
 end Gen
 
 /-- evaluation at K = ℚ for the correspondence driver -/
-def Gen.dispatchRoots (tbl : FnTable) (name : String) (args : List ℚ) : Option (List ℚ) :=
-  match name, args with
-  | "quadraticRoots", [a0, a1, a2] => some (Gen.quadraticRoots (tbl.sqrt) a0 a1 a2)
-  | "cubic_dcoeffs", [a0, a1, a2, a3, a4, a5, a6, a7] => some (Gen.cubic_dcoeffs a0 a1 a2 a3 a4 a5 a6 a7)
-  | "quad_findDRoots", [a0, a1, a2, a3, a4, a5] => some (Gen.quad_findDRoots a0 a1 a2 a3 a4 a5)
-  | "quad_rootcoeffs_y", [a0, a1, a2, a3, a4, a5] => some (Gen.quad_rootcoeffs_y a0 a1 a2 a3 a4 a5)
-  | "quad_tOfPoint_coeffs", [a0, a1, a2, a3, a4, a5, a6, a7] => some (Gen.quad_tOfPoint_coeffs a0 a1 a2 a3 a4 a5 a6 a7)
-  | _, _ => none
+def Gen.dispatchRoots (tbl : FnTable) (name : String) (a : List ℚ) : Option (List ℚ) :=
+  match name with
+  | "quadraticRoots" => if a.length = 3 then some (Gen.quadraticRoots (tbl.sqrt) (a.getD 0 0) (a.getD 1 0) (a.getD 2 0)) else none
+  | "cubic_dcoeffs" => if a.length = 8 then some (Gen.cubic_dcoeffs (a.getD 0 0) (a.getD 1 0) (a.getD 2 0) (a.getD 3 0) (a.getD 4 0) (a.getD 5 0) (a.getD 6 0) (a.getD 7 0)) else none
+  | "quad_findDRoots" => if a.length = 6 then some (Gen.quad_findDRoots (a.getD 0 0) (a.getD 1 0) (a.getD 2 0) (a.getD 3 0) (a.getD 4 0) (a.getD 5 0)) else none
+  | "quad_rootcoeffs_y" => if a.length = 6 then some (Gen.quad_rootcoeffs_y (a.getD 0 0) (a.getD 1 0) (a.getD 2 0) (a.getD 3 0) (a.getD 4 0) (a.getD 5 0)) else none
+  | "quad_tOfPoint_coeffs" => if a.length = 8 then some (Gen.quad_tOfPoint_coeffs (a.getD 0 0) (a.getD 1 0) (a.getD 2 0) (a.getD 3 0) (a.getD 4 0) (a.getD 5 0) (a.getD 6 0) (a.getD 7 0)) else none
+  | _ => none
